@@ -14,6 +14,7 @@ From ClapModel Require Import Base.Bytes Base.Machine.
 From ClapModel Require Import Parse.Cmd Parse.Build Parse.Valid Parse.Matcher Parse.Errors Parse.Validator Parse.Parser.
 From ClapModel Require Import ParseProofs.Relations ParseProofs.RelationsClauses ParseProofs.RelationsComplete
                               ParseProofs.RelationsCompleteAll ParseProofs.ValidateTotal.
+From ClapModel Require ParseProofs.RelationsLoop ParseProofs.RelationsTree ParseProofs.Globals.
 From ClapModel Require Import ParseProofs.Safe ParseProofs.Invariant ParseProofs.Totality ParseProofs.TotalityMain ParseProofs.IndexInv.
 From RecordUpdate Require Import RecordSet.
 Import RecordSetNotations.
@@ -232,4 +233,40 @@ Proof.
   intros [_ [_ [_ [_ W5]]]] A [[_ [He Hi]] _] Hh Hs.
   apply validate_iff; [exact A|exact (proj1 Hi)|exact He| |exact Hh|exact Hs].
   intros p Hp. unfold positionals in Hp. apply filter_In in Hp as [Hin Hpos]. exact (W5 p Hin Hpos).
+Qed.
+
+(** * the hypothesis [strict_chain_b] of the chain theorems is needed: when a level ON the chain
+    ignores errors, the error of its child is swallowed and the child's unvalidated matcher is
+    recorded -- root -> s (ignore_errors) -> t (a required argument): `s t` "succeeds" and the
+    recorded matcher of [t] does not satisfy the relations of [t] *)
+Definition ig_t : cmd := cmd_new [116] <| c_args := [wflag i_b [98;98] <| a_required := true |>] |>.
+Definition ig_s : cmd :=
+  cmd_new [115] <| c_subs := [ig_t] |>
+    <| c_set := settings_none <| s_ignore_errors := true |> |>
+    <| c_gset := settings_none <| s_ignore_errors := true |> |>.
+Definition ig_root : cmd := cmd_new [112] <| c_args := [wflag i_a [97;97]] |> <| c_subs := [ig_s] |>.
+
+Definition sub_matches (m : matches) : option matches := match ms_sub m with Some (_, sm) => Some sm | None => None end.
+Definition built_sub (c : cmd) (n : bytes) : cmd := opt_default c (build_subcommand c n).
+
+Example strict_chain_needed :
+  plain ig_root = true /\ valid ig_root = true /\ is_set s_ignore_errors (build_self ig_root) = false
+  /\ exists m sm, do_parse ig_root [[115]; [116]] = OOk m /\ Globals.chain m = [[115]; [116]]
+       /\ RelationsLoop.strict_chain_b (build_self ig_root) m = false
+       /\ match sub_matches m with Some m1 => sub_matches m1 | None => None end = Some sm
+       /\ ~ Relations (built_sub (built_sub (build_self ig_root) [115]) [116]) (RelationsTree.level_matcher sm).
+Proof.
+  split; [vm_compute; reflexivity|]. split; [vm_compute; reflexivity|]. split; [vm_compute; reflexivity|].
+  do 2 eexists. split; [vm_compute; reflexivity|]. split; [vm_compute; reflexivity|].
+  split; [vm_compute; reflexivity|]. split; [vm_compute; reflexivity|].
+  match goal with |- ~ Relations ?c ?m => set (cc := c); set (mm0 := m) end.
+  intros R.
+  assert (Hv : validate cc mm0 = VOk).
+  { apply (validate_complete cc); [vm_compute; reflexivity| | | | | |exact R].
+    - apply fm_wf_b_sound. vm_compute. reflexivity.
+    - apply keys_ok_b_sound. vm_compute. reflexivity.
+    - apply pos_indexed_b_sound. vm_compute. reflexivity.
+    - vm_compute. reflexivity.
+    - vm_compute. reflexivity. }
+  vm_compute in Hv. discriminate.
 Qed.
